@@ -44,6 +44,7 @@ func runC13(t *testing.T, c ReplCase) *kit.Result {
 		sim = simrt.S
 		cl := newReplCluster(c.Cfg, c.PK, c.RK, c.NRep, c.Link)
 		kit.TagNode(cl.fs, "n1")
+		cl.setDiskLatency(c.DiskUs)
 		fail := func(kind, sig, detail string) {
 			if res.V == nil {
 				res.V = &kit.Violation{Kind: kind, Signature: sig, Detail: detail}
@@ -309,6 +310,7 @@ func TestC13(t *testing.T) {
 				c.Link.RPCFailP = kit.PickOf(r, 0, 0.1, 0.3)
 			}
 			script := genReplScript(r, c.NRep, tier, r.Bool(0.7))
+			c.DiskUs = kit.PickOf(r, 0, 0, 50, 300, 1000)
 			// no restarts or kills here (see the header)
 			for _, e := range script {
 				if e.K == "restart" || e.K == "crash" {
